@@ -178,6 +178,18 @@ def oracle(cases, order, impl, skeleton):
                 fails.append(dict(name="fetch-" + cid, base=cid, signature=F1_SIG,
                                   what="fetching a newer checkpoint from a source that reused sst numbers (%s r1=%s r2=%s): %s" % (c[1], c[2], c[3], out)))
             nontrivial.add(vlib.case_hash("\t".join(c)))
+        elif kind == "I":
+            m = re.match(r"^trials=(\d+) later_writes_visible=(\d+)$", out)
+            if not m:
+                fails.append(dict(name="interleave-" + cid, base=cid, what="apply-loop schedule around a snapshot (%s): %s" % (c[1], out[:200])))
+            else:
+                stats["interleaved_trials"] = stats.get("interleaved_trials", 0) + int(m.group(1))
+                if int(m.group(2)) != 0:
+                    fails.append(dict(name="interleave-" + cid, base=cid, signature=K1_SIG,
+                                      what="engine %s: %s of %s checkpoints, restored, show writes that were applied after WaitReady returned "
+                                           "(schedule: apply, dump, Backup+WaitReady, apply on at once while the copy runs, GetResult, Restore, dump)"
+                                           % (c[1], m.group(2), m.group(1))))
+            nontrivial.add(vlib.case_hash("\t".join(c)))
         elif kind == "K":
             p = out.split(" ")
             if len(p) != 2 or p[0] != p[1]:
@@ -475,9 +487,9 @@ def run(ctx):
         raise SystemExit(2)
 
     if quick:
-        args = "-seed %d -ndir 500 -nplan 200 -ntrace 2 -tracelen 50 -nfetch 0 -engines pebble,rocksdb,mem -k1 none" % ctx.seed
+        args = "-seed %d -ndir 500 -nplan 200 -ntrace 2 -tracelen 50 -nfetch 0 -ninter 40 -engines pebble,rocksdb,mem -k1 none" % ctx.seed
     else:
-        args = "-seed %d -ndir 15000 -nplan 3000 -ntrace 30 -tracelen 80 -nfetch 6 -exh -engines pebble,rocksdb,mem -k1 pebble,rocksdb,mem -k1mb 48" % ctx.seed
+        args = "-seed %d -ndir 15000 -nplan 3000 -ntrace 30 -tracelen 80 -nfetch 6 -ninter 600 -exh -engines pebble,rocksdb,mem -k1 pebble,rocksdb,mem -k1mb 48" % ctx.seed
     runs = []
     corpus = sorted(glob.glob(os.path.join(vlib.VERIF, "corpus", "C14", "*.tsv")))
     if ctx.replay:
@@ -491,6 +503,10 @@ def run(ctx):
         for k, cf in enumerate(corpus):
             runs.append(("corpus%d" % k, None, cf))
         runs.append(("fresh", args, None))
+        if not quick:
+            # the other two indexes of the mem engine (reachable through engine.VerifSetMemType only)
+            for mt in ("btree", "skiplist"):
+                runs.append(("mem-" + mt, "-seed %d -ndir 0 -nplan 60 -ntrace 8 -tracelen 70 -ninter 200 -engines mem -memtype %s -k1 mem -k1mb 16" % (ctx.seed + 7, mt), None))
 
     all_mism, all_fail, total = [], [], 0
     hist_all, stats_all, distinct, samples = {}, {}, set(), []
@@ -516,17 +532,17 @@ def run(ctx):
             stats_all["fetch_scenarios_with_sst_number_reuse"] = stats_all.get("fetch_scenarios_with_sst_number_reuse", 0) + ncoll
         except OSError:
             pass
-        if sub == "fresh" or ctx.replay:
+        if sub in ("fresh", "replay"):
             byk = {}
             for cid in order:
                 byk.setdefault(cases[cid][0], cid)
-            for kd in ("P", "F", "TO", "L", "E", "K"):
+            for kd in ("P", "F", "TO", "L", "E", "I", "K"):
                 if kd in byk:
                     cid = byk[kd]
                     samples.append(dict(case=[x[:160] for x in cases[cid]], impl=(impl.get(cid) or "")[:300]))
 
     def search():
-        d2, err = run_impl(ctx, "search", "-seed %d -ndir 3000 -nplan 800 -ntrace 6 -tracelen 60 -nfetch 4 -engines pebble,rocksdb,mem -k1 pebble,rocksdb -k1mb 48" % (ctx.seed + 1000003))
+        d2, err = run_impl(ctx, "search", "-seed %d -ndir 3000 -nplan 800 -ntrace 6 -tracelen 60 -nfetch 4 -ninter 300 -engines pebble,rocksdb,mem -k1 pebble,rocksdb -k1mb 48" % (ctx.seed + 1000003))
         if d2 is None:
             return []
         return evaluate(d2)[4]
@@ -547,6 +563,8 @@ def run(ctx):
              "HyperLogLog; Backup at random instants with writes while the copy runs; Restore on the same store, repeated, and on the "
              "other store after copying the checkpoint directory; compaction; close+reopen; SetLatestSnapIndex; small KeepBackup traces "
              "where the purge really removes; fetch of a checkpoint by the real kvStoreSM.PrepareSnapshot from the peer store); "
+             "I: the production apply-loop schedule around a snapshot, many trials per engine on one store: apply, dump, GetSnapshot (Backup+WaitReady), "
+             "apply further entries at once while the copy runs, GetData, RestoreFromSnapshot, dump; "
              "E: two checkpoints fetched and restored, the source falls back to its first checkpoint and reuses sst numbers with other content, third fetch; K: 32MB unflushed memtable + INCR traffic racing with the checkpoint copy. "
              "Non-trivial = a purge that removes, a plan with an sst present on both sides, a restore that really rolls the content back, "
              "any N/C/L/K; distinct by hash of the case.",
